@@ -16,10 +16,17 @@
 //!   qnall s=                          the nested search for every word -> `nall <word>=p:c1,c2/p2:…;…`
 //!   q s= e= t=<word>                  search -> `hits n1,n2,…` (row numbers, sorted)
 //!   qall s=                           every word of past and current texts, for both entities -> `all <e>:<word>:<rows>;…` (non-empty results only)
+//!   slots s=                          the storage slot (rowid) of every row of the site, relative to the largest rowid of `_node`
+//!                                    when the case started -> `slots n:slot,…`
+//!   docs s=                           the slots that have a document record in the index (`_node_fts_docsize`) -> `docs slot,…`
+//!   xj j=<json>                       the real `extract_json` on a JSON value (spaces travel as `+`) -> `text <extracted>`
 //!
 //! Oracle (written next to the observations, `<out>.oracle`): for every search the result must be the set of
 //! rows of that entity whose CURRENT text (read back with a plain query) contains the word — only checked
-//! for entities whose current model version declares an index.
+//! for entities whose current model version declares an index. The verdict never depends on anything but the two
+//! result sets; the NAME given to a difference does: it is chosen from what the harness did to the row (and to the
+//! former holders of its slot) and from the index flag the implementation reports for the entity, so that each
+//! known defect keeps its own signature whatever other defects are present or repaired.
 use crate::inst::*;
 use discret::verif_hooks::clock;
 use discret::verif_hooks::security::{derive_key, Ed25519SigningKey, SigningKey, Uid};
@@ -43,25 +50,36 @@ fn get_u(kv: &Kv, k: &str) -> Option<u64> {
     kv.get(k).and_then(|v| v.parse::<u64>().ok())
 }
 
-/// how the current version of a row got where it is (only used to name the oracle's signatures)
+/// how a version of a row was written at a site (only used to name the oracle's signatures)
 #[derive(Clone, Copy, PartialEq, Debug)]
-pub enum Origin {
-    Local,
-    LocalAfterDeletion,
-    IngestedInsert,
-    IngestedUpdate,
+pub enum How {
+    /// by a local mutation while the implementation reported the entity's index flag on
+    LocalOn,
+    /// by a local mutation while it reported the flag off
+    LocalOff,
+    /// by the ingestion of a synchronised row
+    Ingested,
+}
+
+#[derive(Clone, Debug)]
+pub struct Ver {
+    pub words: Vec<u64>,
+    pub how: How,
 }
 
 pub struct Site {
     pub inst: Inst,
     pub rows: BTreeMap<u64, (Uid, u64)>,
-    pub origin: BTreeMap<u64, Origin>,
     pub version: u64,
-    pub deleted_since_start: bool,
-    /// rows that were overwritten by an ingested version at some point
-    pub had_ingested_update: BTreeSet<u64>,
-    /// rows inserted (locally or by ingestion) after some row of the site had been deleted: their slot may be a reused one
-    pub inserted_after_deletion: BTreeSet<u64>,
+    /// `enable_full_text` of `Doc` and `Note` as the implementation reports them (answer of `update_data_model`)
+    pub engine_flag: [bool; 2],
+    /// largest rowid of `_node` when the case started
+    pub base_slot: i64,
+    /// the versions of each row as written at this site since the row holds its slot
+    pub hist: BTreeMap<u64, Vec<Ver>>,
+    pub slot_of: BTreeMap<u64, i64>,
+    /// the version histories of the former holders of a slot, oldest first
+    pub slot_prev: HashMap<i64, Vec<Vec<Ver>>>,
 }
 
 #[allow(dead_code)]
@@ -105,14 +123,17 @@ impl World {
                 .await
                 .map_err(|e| format!("start: {}", e))?;
             inst.collect(1, 10_000).await?;
+            // the flags the implementation holds for the first version (declared again: nothing changes)
+            let dm = inst.svc.update_data_model(&model_text(0)).await.map_err(|e| format!("model: {}", e))?;
             sites.push(Site {
                 inst,
                 rows: BTreeMap::new(),
-                origin: BTreeMap::new(),
                 version: 0,
-                deleted_since_start: false,
-                had_ingested_update: BTreeSet::new(),
-                inserted_after_deletion: BTreeSet::new(),
+                engine_flag: engine_flags(&dm).ok_or("model: flags not found")?,
+                base_slot: 0,
+                hist: BTreeMap::new(),
+                slot_of: BTreeMap::new(),
+                slot_prev: HashMap::new(),
             });
         }
         // one room, every site key admin and member with all rights; imported by the other site
@@ -146,6 +167,12 @@ impl World {
             if st != "ok" {
                 return Err(format!("room import: {}", st));
             }
+        }
+        for s in 0..w.sites.len() {
+            w.sites[s].base_slot = w.sites[s]
+                .inst
+                .read(|conn| conn.query_row("SELECT ifnull(max(rowid),0) FROM _node", [], |r| r.get::<_, i64>(0)).unwrap_or(0))
+                .await;
         }
         Ok(w)
     }
@@ -267,38 +294,89 @@ impl World {
         res
     }
 
+    /// names a word found for a row (or a former holder of its slot) that no longer has it: the write that
+    /// should have removed it
+    fn name_stale(hist: &[Ver], t: u64, former: bool) -> Option<&'static str> {
+        let i = hist.iter().rposition(|v| v.words.contains(&t))?;
+        if i + 1 == hist.len() {
+            // the last text of a former holder of the slot: its deletion left it
+            return if former { Some("stale-hit-through-reused-slot") } else { None };
+        }
+        Some(match hist[i + 1].how {
+            How::Ingested => "stale-hit-after-synchronised-update",
+            How::LocalOff => "stale-hit-after-write-while-index-off",
+            How::LocalOn => "stale-hit",
+        })
+    }
+
     fn classify(&self, s: usize, e: u64, t: u64, hits: &[u64], expect: &[u64]) -> Vec<(String, String)> {
         let mut res = vec![];
         let site = &self.sites[s];
-        let t = &word(t);
+        let word = &word(t);
         for n in hits.iter().filter(|n| !expect.contains(n)) {
-            let sig = if site.had_ingested_update.contains(n) {
-                "stale-hit-after-synchronised-update"
-            } else if site.inserted_after_deletion.contains(n) {
-                "stale-hit-through-reused-slot"
-            } else {
-                "stale-hit"
+            let own = site.hist.get(n).and_then(|h| Self::name_stale(h, t, false));
+            let former = || {
+                let prev = site.slot_of.get(n).and_then(|slot| site.slot_prev.get(slot))?;
+                prev.iter().rev().find_map(|h| Self::name_stale(h, t, true))
             };
-            res.push((sig.to_string(), format!("site {} entity {} search '{}' returned row {} whose current text does not contain it", s, e, t, n)));
+            let sig = own.or_else(former).unwrap_or("stale-hit");
+            res.push((sig.to_string(), format!("site {} entity {} search '{}' returned row {} whose current text does not contain it", s, e, word, n)));
         }
         for n in expect.iter().filter(|n| !hits.contains(n)) {
-            let sig = if e == 1 {
-                // `Note` is declared without index by the first model version; a later version declares one
+            let sig = if !site.engine_flag[e as usize] {
+                // the model version in force declares an index, the flag the implementation reports is still off
                 "index-enabled-by-model-update-ignored"
             } else {
-                match site.origin.get(n) {
-                    Some(Origin::IngestedInsert) => "synchronised-row-missed",
-                    Some(Origin::IngestedUpdate) => "synchronised-update-missed",
-                    Some(Origin::LocalAfterDeletion) => "missed-row",
+                match site.hist.get(n).and_then(|h| h.last().map(|v| (v.how, h.len()))) {
+                    Some((How::Ingested, 1)) => "synchronised-row-missed",
+                    Some((How::Ingested, _)) => "synchronised-update-missed",
+                    Some((How::LocalOff, _)) => "written-while-index-off-missed",
                     _ => "missed-row",
                 }
             };
-            res.push((sig.to_string(), format!("site {} entity {} search '{}' misses row {} whose current text contains it", s, e, t, n)));
+            res.push((sig.to_string(), format!("site {} entity {} search '{}' misses row {} whose current text contains it", s, e, word, n)));
         }
         res
     }
 
+    fn how_local(&self, s: usize, e: u64) -> How {
+        if self.sites[s].engine_flag[e as usize] {
+            How::LocalOn
+        } else {
+            How::LocalOff
+        }
+    }
+
+    /// a row leaves its slot (deletion, locally or through a synchronised deletion record)
+    fn forget_row(&mut self, s: usize, n: u64) {
+        let site = &mut self.sites[s];
+        let hist = site.hist.remove(&n).unwrap_or_default();
+        if let Some(slot) = site.slot_of.remove(&n) {
+            site.slot_prev.entry(slot).or_default().push(hist);
+        }
+    }
+
     pub async fn op(&mut self, kind: &str, kv: &Kv, stats: &mut Stats, oracle: &mut Vec<(String, String)>) -> String {
+        if kind == "xj" {
+            // the real `extract_json` on the value (spaces travel as `+`)
+            stats.inc("op.xj");
+            let j = match kv.get("j") {
+                Some(j) => j.replace('+', " "),
+                None => return "bad-op".into(),
+            };
+            let val: serde_json::Value = match serde_json::from_str(&j) {
+                Ok(v) => v,
+                Err(_) => return "bad-op".into(),
+            };
+            let mut buff = String::new();
+            if let Err(e) = discret::verif_hooks::database::node::extract_json(&val, &mut buff) {
+                return format!("err:{}", class(&e));
+            }
+            if !buff.is_empty() {
+                stats.inc("extractions_with_text");
+            }
+            return format!("text {}", buff.replace(' ', "+")).trim_end().to_string();
+        }
         let s = match get_u(kv, "s") {
             Some(s) if (s as usize) < self.sites.len() => s as usize,
             Some(_) => return "skip".into(),
@@ -312,9 +390,15 @@ impl World {
                 };
                 stats.inc("op.model");
                 match self.sites[s].inst.svc.update_data_model(&model_text(v)).await {
-                    Ok(_) => {
+                    Ok(dm) => {
                         self.sites[s].version = v;
-                        "ok".into()
+                        match engine_flags(&dm) {
+                            Some(f) => {
+                                self.sites[s].engine_flag = f;
+                                "ok".into()
+                            }
+                            None => "err:flags-not-found".into(),
+                        }
                     }
                     Err(e) => format!("err:{}", class(&e)),
                 }
@@ -351,11 +435,10 @@ impl World {
                         self.row_uid.insert(n, (id, e));
                         self.row_of_uid.insert(b64(&id), n);
                         self.sites[s].rows.insert(n, (id, e));
-                        let o = if self.sites[s].deleted_since_start { Origin::LocalAfterDeletion } else { Origin::Local };
-                        self.sites[s].origin.insert(n, o);
-                        if self.sites[s].deleted_since_start {
-                            self.sites[s].inserted_after_deletion.insert(n);
-                        }
+                        let how = self.how_local(s, e);
+                        let slot = self.versions(s).await.get(&b64(&id)).map(|x| x.1).unwrap_or(-1);
+                        self.sites[s].slot_of.insert(n, slot);
+                        self.sites[s].hist.insert(n, vec![Ver { words: if kind == "newx" { vec![] } else { words.clone() }, how }]);
                         "ok".to_string()
                     }
                     Err(e) => format!("err:{}", class(&e)),
@@ -375,9 +458,11 @@ impl World {
                     Some(x) => *x,
                     None => return "skip".into(),
                 };
+                let mut new_words = vec![];
                 let (q, p) = if kind == "upd" {
                     let words = parse_words(kv.get("w").map(|x| x.as_str()).unwrap_or("")).unwrap_or_default();
                     self.note_words(&words);
+                    new_words = words.clone();
                     (
                         format!("mutate {{ {} {{ id:$id txt:$t }} }}", ENT_NAMES[e as usize]),
                         params(&[("id", b64(&id)), ("t", text_of(&words))]),
@@ -391,11 +476,8 @@ impl World {
                 stats.inc(&format!("op.{}", kind));
                 let r = match self.sites[s].inst.svc.mutate_raw(&q, Some(p)).await {
                     Ok(_) => {
-                        let o = match self.sites[s].origin.get(&n) {
-                            Some(Origin::LocalAfterDeletion) => Origin::LocalAfterDeletion,
-                            _ => Origin::Local,
-                        };
-                        self.sites[s].origin.insert(n, o);
+                        let how = self.how_local(s, e);
+                        self.sites[s].hist.entry(n).or_default().push(Ver { words: new_words, how });
                         "ok".to_string()
                     }
                     Err(e) => format!("err:{}", class(&e)),
@@ -417,10 +499,7 @@ impl World {
                 let r = match self.sites[s].inst.svc.delete(&q, Some(params(&[("id", b64(&id))]))).await {
                     Ok(_) => {
                         self.sites[s].rows.remove(&n);
-                        self.sites[s].origin.remove(&n);
-                        self.sites[s].had_ingested_update.remove(&n);
-                        self.sites[s].inserted_after_deletion.remove(&n);
-                        self.sites[s].deleted_since_start = true;
+                        self.forget_row(s, n);
                         "ok".to_string()
                     }
                     Err(e) => format!("err:{}", class(&e)),
@@ -444,43 +523,31 @@ impl World {
                 let after = self.versions(s).await;
                 let known: Vec<(u64, (Uid, u64))> = self.row_uid.iter().map(|(n, v)| (*n, *v)).collect();
                 let mut rows = BTreeMap::new();
-                if known.iter().any(|(_, (id, _))| match (before.get(&b64(id)), after.get(&b64(id))) {
-                    (Some(_), None) => true,
-                    (Some(b), Some(a)) => b.1 != a.1,
-                    _ => false,
-                }) {
-                    // tombstones are applied before the rows of the same ingestion are written
-                    self.sites[s].deleted_since_start = true;
-                }
                 for (n, (id, e)) in known {
-                    if let Some(m) = after.get(&b64(&id)) {
-                        rows.insert(n, (id, e));
-                        // a row whose slot changed was removed by a tombstone and fetched again: an ingested insert
-                        let reinserted = matches!(before.get(&b64(&id)), Some(m0) if m0.1 != m.1);
-                        match before.get(&b64(&id)) {
-                            Some(_) if !reinserted && before.get(&b64(&id)).map(|x| x.0) == Some(m.0) => {}
-                            Some(_) if !reinserted => {
-                                self.sites[s].origin.insert(n, Origin::IngestedUpdate);
-                                self.sites[s].had_ingested_update.insert(n);
-                            }
-                            _ => {
-                                self.sites[s].origin.insert(n, Origin::IngestedInsert);
-                                self.sites[s].had_ingested_update.remove(&n);
-                                if self.sites[s].deleted_since_start || reinserted {
-                                    self.sites[s].deleted_since_start = true;
-                                    self.sites[s].inserted_after_deletion.insert(n);
-                                } else {
-                                    self.sites[s].inserted_after_deletion.remove(&n);
-                                }
+                    let (b, a) = (before.get(&b64(&id)).copied(), after.get(&b64(&id)).copied());
+                    // the version the source holds is the one that is written
+                    let incoming = Ver {
+                        words: self.sites[t].hist.get(&n).and_then(|h| h.last()).map(|v| v.words.clone()).unwrap_or_default(),
+                        how: How::Ingested,
+                    };
+                    match (b, a) {
+                        (Some(b), Some(a)) if b.1 == a.1 => {
+                            rows.insert(n, (id, e));
+                            if b.0 != a.0 {
+                                self.sites[s].hist.entry(n).or_default().push(incoming);
                             }
                         }
-                    } else {
-                        if before.contains_key(&b64(&id)) {
-                            self.sites[s].deleted_since_start = true;
+                        (b, Some(a)) => {
+                            // new here, or removed by a deletion record and fetched again (another slot): an ingested insert
+                            rows.insert(n, (id, e));
+                            if b.is_some() {
+                                self.forget_row(s, n);
+                            }
+                            self.sites[s].slot_of.insert(n, a.1);
+                            self.sites[s].hist.insert(n, vec![incoming]);
                         }
-                        self.sites[s].origin.remove(&n);
-                        self.sites[s].had_ingested_update.remove(&n);
-                        self.sites[s].inserted_after_deletion.remove(&n);
+                        (Some(_), None) => self.forget_row(s, n),
+                        (None, None) => {}
                     }
                 }
                 self.sites[s].rows = rows;
@@ -502,7 +569,15 @@ impl World {
                 stats.inc("op.link");
                 let q = "mutate { Doc { id:$id kids:[{id:$m}] } }";
                 let r = match self.sites[s].inst.svc.mutate_raw(q, Some(params(&[("id", b64(&a)), ("m", b64(&b))]))).await {
-                    Ok(_) => "ok".to_string(),
+                    Ok(mq) => {
+                        // a new reference rewrites the parent (same text)
+                        if mq.mutate_entities[0].node_to_mutate.node.is_some() {
+                            let how = self.how_local(s, 0);
+                            let words = self.sites[s].hist.get(&n).and_then(|h| h.last()).map(|v| v.words.clone()).unwrap_or_default();
+                            self.sites[s].hist.entry(n).or_default().push(Ver { words, how });
+                        }
+                        "ok".to_string()
+                    }
                     Err(e) => format!("err:{}", class(&e)),
                 };
                 self.step_clock();
@@ -575,6 +650,30 @@ impl World {
                     Err(e) => format!("err:{}", e),
                 }
             }
+            "slots" => {
+                stats.inc("op.slots");
+                let base = self.sites[s].base_slot;
+                let vs = self.versions(s).await;
+                let parts: Vec<String> = self.sites[s]
+                    .rows
+                    .iter()
+                    .filter_map(|(n, (id, _))| vs.get(&b64(id)).map(|v| format!("{}:{}", n, v.1 - base)))
+                    .collect();
+                format!("slots {}", parts.join(",")).trim_end().to_string()
+            }
+            "docs" => {
+                stats.inc("op.docs");
+                let base = self.sites[s].base_slot;
+                let ids: Vec<i64> = self.sites[s]
+                    .inst
+                    .read(move |conn| {
+                        let mut stmt = conn.prepare("SELECT id FROM _node_fts_docsize WHERE id > ? ORDER BY id").unwrap();
+                        let rows = stmt.query_map([base], |r| r.get::<_, i64>(0)).unwrap();
+                        rows.filter_map(|x| x.ok()).collect()
+                    })
+                    .await;
+                format!("docs {}", ids.iter().map(|x| (x - base).to_string()).collect::<Vec<_>>().join(",")).trim_end().to_string()
+            }
             "qall" => {
                 stats.inc("op.qall");
                 let words: Vec<u64> = self.words.iter().copied().collect();
@@ -632,6 +731,53 @@ impl World {
     }
 }
 
+/// `enable_full_text` of `Doc` and `Note` in the serialized data model the implementation answers with
+pub fn engine_flags(dm: &str) -> Option<[bool; 2]> {
+    fn find(v: &serde_json::Value, name: &str) -> Option<bool> {
+        match v {
+            serde_json::Value::Object(m) => {
+                if m.get("name").and_then(|x| x.as_str()) == Some(name) {
+                    if let Some(b) = m.get("enable_full_text").and_then(|x| x.as_bool()) {
+                        return Some(b);
+                    }
+                }
+                m.values().find_map(|x| find(x, name))
+            }
+            serde_json::Value::Array(a) => a.iter().find_map(|x| find(x, name)),
+            _ => None,
+        }
+    }
+    let v: serde_json::Value = serde_json::from_str(dm).ok()?;
+    Some([find(&v, ENT_NAMES[0])?, find(&v, ENT_NAMES[1])?])
+}
+
+/// a random JSON value for `xj` (no spaces: `+` stands for one): strings of words at any depth, numbers, booleans,
+/// null, arrays, objects whose keys come unsorted and sometimes twice
+fn gen_json(g: &mut Gen, depth: usize) -> String {
+    let k = if depth == 0 { g.below(5) } else { g.below(7) };
+    match k {
+        0 | 1 => {
+            let n = g.below(3);
+            let ws: Vec<String> = (0..n).map(|_| word(g.below(8) as u64)).collect();
+            format!("\"{}\"", ws.join("+"))
+        }
+        2 => format!("{}", g.range(-50, 500)),
+        3 => (if g.chance(1, 2) { "true" } else { "false" }).to_string(),
+        4 => "null".to_string(),
+        5 => {
+            let n = g.below(4);
+            let items: Vec<String> = (0..n).map(|_| gen_json(g, depth - 1)).collect();
+            format!("[{}]", items.join(","))
+        }
+        _ => {
+            let n = g.below(4);
+            let keys = ["b", "a", "ab", "c", "32", "4"];
+            let items: Vec<String> = (0..n).map(|_| format!("\"{}\":{}", g.pick(&keys), gen_json(g, depth - 1))).collect();
+            format!("{{{}}}", items.join(","))
+        }
+    }
+}
+
 fn fmt_nested(v: &[(u64, Vec<u64>)]) -> String {
     v.iter()
         .map(|(p, cs)| format!("{}:{}", p, cs.iter().map(|x| x.to_string()).collect::<Vec<_>>().join(",")))
@@ -659,7 +805,7 @@ pub fn gen_fts(seed: u64, n: usize, len: usize, out: &str) {
         };
         for _ in 0..l {
             let s = g.below(sites);
-            match g.weighted(&[6, 5, 3, 4, if sites == 2 { 4 } else { 0 }, 3, 1, 1, if sites == 1 { 9 } else { 0 }, if sites == 1 { 3 } else { 0 }, 3]) {
+            match g.weighted(&[6, 5, 3, 4, if sites == 2 { 4 } else { 0 }, 3, 2, 2, if sites == 1 { 9 } else { 0 }, if sites == 1 { 3 } else { 0 }, 3]) {
                 0 => {
                     let e = if g.chance(3, 4) { 0 } else { 1 };
                     writeln!(w, "new s={} n={} e={} w={}", s, next_row, e, words(&mut g)).unwrap();
@@ -728,14 +874,23 @@ pub fn gen_fts(seed: u64, n: usize, len: usize, out: &str) {
                     }
                 }
                 9 => writeln!(w, "qn s={} t={}", s, g.pick(&vocab)).unwrap(),
+                7 if g.chance(1, 2) => {
+                    writeln!(w, "slots s={}", s).unwrap();
+                    writeln!(w, "docs s={}", s).unwrap();
+                }
                 _ => writeln!(w, "qall s={}", s).unwrap(),
             }
         }
         for s in 0..sites {
             writeln!(w, "qall s={}", s).unwrap();
+            writeln!(w, "slots s={}", s).unwrap();
+            writeln!(w, "docs s={}", s).unwrap();
         }
         if sites == 1 {
             writeln!(w, "qnall s=0").unwrap();
+        }
+        for _ in 0..2 {
+            writeln!(w, "xj j={}", gen_json(&mut g, 3)).unwrap();
         }
     }
     w.flush().unwrap();
